@@ -40,7 +40,7 @@ def scenarios(tier, seed=0):
                 spec = A.catalogue_spec(name, soil=soil, **kw)
                 yield {"kind": "spec", "spec": spec, "label": ["catalogue", name, soil, w]}
     # groundwater (table rising above the root tip) and irrigation, on a subset of crops / all crops in thorough
-    gws = ["0.8", "rising_v"] if tier == "quick" else ["0.8", "1.5", "rising_v", "rising_c", "falling_v"]
+    gws = ["0.8", "rising_v", "rising_c_late"] if tier == "quick" else ["0.8", "1.5", "rising_v", "rising_c", "falling_v", "rising_c_late"]
     sub = names if tier != "quick" else ["Maize", "Wheat", "Potato", "Cotton", "MaizeGDD", "SugarBeetGDD", "Tomato", "PaddyRice"]
     for name in sub:
         for gw in gws:
